@@ -2,6 +2,7 @@ package main
 
 import (
 	"fmt"
+	"strings"
 	"go/token"
 	"go/types"
 	"math/big"
@@ -10,6 +11,13 @@ import (
 )
 
 func (f *Frame) oname(kind string, ins ssa.Instruction) string {
+	// the ordinal counts instructions of the same content key (see instrKind), the
+	// key itself is part of the name for field/index/deref obligations
+	if k := instrKind(ins); strings.Contains(k, "[") {
+		if i := strings.LastIndex(kind, "/"); i >= 0 {
+			kind = kind[:i+1] + k
+		}
+	}
 	return fmt.Sprintf("%s%s/%s#%d", f.u.name, f.prefix, kind, f.ords[ins])
 }
 
@@ -248,6 +256,11 @@ func (f *Frame) step(b *ssa.BasicBlock, ins ssa.Instruction, st *State) bool {
 		f.env[x] = res
 		if f.top && f.fc != nil && len(f.fc.Sites) > 0 {
 			extra := map[string]Value{}
+			for i, a := range x.Call.Args {
+				v := f.val(a)
+				v.Ty = a.Type()
+				extra[fmt.Sprintf("arg%d", i)] = v
+			}
 			if len(res.Tuple) > 0 {
 				for i, r := range res.Tuple {
 					extra[fmt.Sprintf("ret%d", i)] = r
